@@ -112,3 +112,6 @@ func verifVersionRef(tx uint64, kind byte, filters []FilterFn) (ValueRef, error)
 }
 
 func verifNow() time.Time { return time.Unix(1000, 0) }
+
+// VerifValueRef builds a plain value reference (tx id, revision count) for harnesses of other packages.
+func VerifValueRef(tx, hc uint64) ValueRef { return &valueRef{tx: tx, hc: hc} }
